@@ -192,6 +192,12 @@ def make_body(settings, marked: bool, blocked: bool, old_absent: bool, diff: boo
     body: dict[str, Any] = {"apiVersion": "kopf.dev/v1", "kind": "KopfExample",
                             "metadata": {"name": "obj", "namespace": "ns", "uid": "u1", "resourceVersion": "5"},
                             "spec": {"field": "new" if diff else "same", "n": variant}}
+    if variant == 4:
+        # an object whose whole essence is empty: its last-handled state is stored as `{}` (present but falsy)
+        body = {"apiVersion": "kopf.dev/v1", "kind": "KopfExample",
+                "metadata": {"name": "obj", "namespace": "ns", "uid": "u1", "resourceVersion": "5"}}
+        if diff:
+            body["spec"] = {"field": "new"}
     fins = (["other.io/a"] if variant & 1 else []) + ([fin] if blocked else []) + (["other.io/b"] if variant & 2 else [])
     if fins:
         body["metadata"]["finalizers"] = fins
@@ -199,7 +205,7 @@ def make_body(settings, marked: bool, blocked: bool, old_absent: bool, diff: boo
         body["metadata"]["deletionTimestamp"] = "2020-01-01T00:00:00Z"
     if not old_absent:
         import json
-        essence = {"spec": {"field": "same", "n": variant}}
+        essence = {"spec": {"field": "same", "n": variant}} if variant != 4 else {}
         body["metadata"].setdefault("annotations", {})["kopf.zalando.org/last-handled-configuration"] = json.dumps(essence) + "\n"
     return body
 
@@ -237,7 +243,7 @@ async def _run(ctx: Ctx) -> None:
     requests, impl_out, inputs = [], [], []
     for ev_type, marked, blocked, old_absent, diff, noticed, handled_once, variant in itertools.product(
             ["DELETED", "MODIFIED", "ADDED", None], [False, True], [False, True], [False, True], [False, True],
-            [False, True], [False, True], [0, 3]):
+            [False, True], [False, True], [0, 3, 4]):
         body = make_body(settings, marked, blocked, old_absent, diff, variant)
         raw_event = {"type": ev_type, "object": body}
         memory = inventory.ResourceMemory(noticed_by_listing=noticed)
